@@ -162,11 +162,20 @@ def run(repo: Repo, rep: Report, tier: str) -> None:
             rep.ok("R18.5", f"{cls}.no_copy_collections = {got}", None)
         else:
             rep.violation("R18.5", ci.key, f"{cls}.no_copy_collections = {got}", f"documented no-copy list is {want['no_copy']}")
+    if getattr(rep, "borrowed", False):
+        return  # another property borrows main-body rules only
     # rules of sibling properties that are necessary conditions of this one as well (same rule ids)
     from ..core.report import Only
     from . import c14 as _c14
     _c14._ownership(repo, Only(rep, {"R14.8", "R14.9"}))
     _no_copy_sources(repo, rep)
+    from ..core.report import Only as _OnlyX
+    from ..core import corpus as _corpusX
+    from ..core import helper_contracts as _hcx
+    from . import c13 as _c13x, c08 as _c08x
+    _hcx.report(repo, rep, "R09.6", _hcx.dataclass_fields_contract(repo), "mashumaro.core.meta.code.builder::CodeBuilder.dataclass_fields")
+    _c13x._slots(repo, _OnlyX(rep, {"R13.3"}), _corpusX.explore_all(repo, tier))
+    _c08x._r08_2(repo, _OnlyX(rep, {"R08.2"}))
 
 _ADDENDUM = ' Borrowed: R14.8 / R14.9 (no write into borrowed containers, no builder store shared across codecs).'
 EXPLANATION += _ADDENDUM
@@ -174,3 +183,6 @@ LEVEL_TEXT += _ADDENDUM
 _ADD13 = ' R18.7: no_copy_collections reaches a ValueSpec only from the dialect / Config option lookup.'
 EXPLANATION += _ADD13
 LEVEL_TEXT += _ADD13
+_ADD22 = ' Borrowed: R09.6, R13.3, R08.2 (the option chain that selects no_copy_collections).'
+EXPLANATION += _ADD22
+LEVEL_TEXT += _ADD22
